@@ -1,7 +1,7 @@
 #!/bin/sh
-# Runs every enabled check once in the thorough tier and prints one summary line per check.
+# Runs every enabled check (or $PROPS) once in the thorough tier and prints one summary line per check.
 cd "$(dirname "$0")/.."
-for p in $(cat tools/enabled.txt); do
+for p in ${PROPS:-$(cat tools/enabled.txt)}; do
   t0=$(date +%s)
   out=$(VERIF_SEED=${1:-1} ./check $p --tier thorough 2>&1); rc=$?
   echo "$p rc=$rc $(( $(date +%s) - t0 ))s :: $(echo "$out" | tail -1)"
